@@ -205,7 +205,10 @@ impl StateApplyManager {
                 member_after_consensus,
                 node_addr: Some(header.node_addrs.clone()),
             });
-            Self::do_load_snapshot(data_wrap, reader).await?;
+            Self::do_load_snapshot(data_wrap.clone(), reader).await?;
+            //same as after the start-up load: components rebuild what they derive from the loaded records
+            //(the MCP manager its unique-key and tool-reference maps)
+            data_wrap.load_complete().ok();
 
             Ok(())
         }
@@ -228,6 +231,11 @@ impl StateApplyManager {
 
     fn load_log(&mut self, ctx: &mut Context<Self>) {
         if self.last_applied_log == 0 || self.log_manager.is_none() || self.data_wrap.is_none() {
+            if self.snapshot_next_index > 1 {
+                //no log to replay, but a snapshot was loaded (a node that installed the leader's snapshot and was
+                //restarted before it applied anything behind it): the components still have to be told
+                self.load_complete(ctx);
+            }
             return;
         }
         let start_index = self.snapshot_next_index;
